@@ -23,6 +23,9 @@ import Hv.Patch.Target
 namespace Hv.C13
 open Hv.Patch
 
+/-- the repaired code: op values validated, NaN not comparable, REMOVE_VAL compares containers too -/
+def good : Cfg := ⟨true, .neverEqual, .widen64, true⟩
+
 /-! ## 1. parse / serialize round trip (all codes, all header widths) -/
 
 /-- Encoder-chosen headers: the parsed document serialises to the very same bytes, and the Go
@@ -70,7 +73,7 @@ theorem apply_wf {cfg : Cfg} (hv : cfg.validatesValues = true)
 
 /-- the hypotheses are satisfiable and the conclusion non-trivial: SET + APPEND on a real body -/
 example :
-    applyWithCondition ⟨true, .neverEqual, .widen64⟩ [0x81, 0xa1, 0x74, 0x91, 0x01]
+    applyWithCondition good [0x81, 0xa1, 0x74, 0x91, 0x01]
       [⟨.set, [0x78], [0xa1, 0x79]⟩, ⟨.append, [0x74, 0x5b, 0x5d], [0x02]⟩] none
       = .ok [0x82, 0xa1, 0x74, 0x92, 0x01, 0x02, 0xa1, 0x78, 0xa1, 0x79] := by decide
 
@@ -120,6 +123,7 @@ theorem stepOp_validating {cfg : Cfg} {t : Node} {op : Op} (hok : ValueOk op) :
         cases hv : cfg.validatesValues
         · rfl
         · rw [hok]
+    case removeVal => rfl
 
 theorem applyOps_validating {cfg : Cfg} : ∀ (ops : List Op) (t : Node), (∀ op ∈ ops, ValueOk op) →
     applyOps cfg t ops = applyOps (validating cfg) t ops
@@ -261,11 +265,30 @@ example : movedTo .set (.target 0) 1 = some 1 ∧ movedTo .delete (.target 0) 1 
 theorem apply_refines_spec_partial {cfg : Cfg} (hv : cfg.validatesValues = true)
     {body : Bytes} {ops : List Op} {cond : Option Condition} {out : Bytes} {t : Node}
     (hparse : parse body = .ok t) (hpaths : ∀ op ∈ ops, op.path.length < 2 ^ 32)
-    (hrv : ∀ op ∈ ops, RemoveValScalar op)
+    (hrv : ∀ op ∈ ops, RemoveValScalar cfg op)
     (hsize : maxCh t + totalGrowth cfg ops < 2 ^ 32)
     (h : applyWithCondition cfg body ops cond = .ok out) :
     ∃ d, Spec.refOps t ops = .ok d ∧ parse out = .ok d :=
   applyWithCondition_refines hv hparse hpaths hrv hsize h
+
+/-- The full refinement — all eight ops, container values included — for the repaired REMOVE_VAL
+    (fact `removeValCompare = canonical`): parsing the returned body gives exactly `Spec.refOps` of
+    the parsed input body. -/
+theorem apply_refines_spec {cfg : Cfg} (hv : cfg.validatesValues = true) (hc : cfg.rmvalCanon = true)
+    {body : Bytes} {ops : List Op} {cond : Option Condition} {out : Bytes} {t : Node}
+    (hparse : parse body = .ok t) (hpaths : ∀ op ∈ ops, op.path.length < 2 ^ 32)
+    (hsize : maxCh t + totalGrowth cfg ops < 2 ^ 32)
+    (h : applyWithCondition cfg body ops cond = .ok out) :
+    ∃ d, Spec.refOps t ops = .ok d ∧ parse out = .ok d :=
+  applyWithCondition_refines hv hparse hpaths
+    (fun _ _ _ hf => by rw [hc] at hf; cases hf) hsize h
+
+/-- REMOVE_VAL of a container element parsed from the body, and of one spliced in by the same patch -/
+example : applyWithCondition good [0x81, 0xa1, 0x74, 0x91, 0x91, 0x01] [⟨.removeVal, [0x74], [0x91, 0x01]⟩] none
+      = .ok [0x81, 0xa1, 0x74, 0x90] ∧
+    applyWithCondition good [0x81, 0xa1, 0x74, 0x90]
+      [⟨.append, [0x74, 0x5b, 0x5d], [0xdc, 0x00, 0x01, 0x01]⟩, ⟨.removeVal, [0x74], [0x91, 0x01]⟩] none
+      = .ok [0x81, 0xa1, 0x74, 0x90] := by decide
 
 /-- the Spec is executable: `{"t":[1]}`, SET x ← "y", APPEND t[] ← 2, INC t[-1] by 5 (int8 delta on a
     fixint: class mismatch is an error; uint delta works and widens per the rule) -/
@@ -304,7 +327,7 @@ theorem cond_unmet (cfg : Cfg) (body : Bytes) (t : Node) (ops : List Op) (c : Co
     unfold applyWithCondition; rw [hp]; simp only; rw [hc]
   exact ⟨this, ops_atomic _ _ _ _ _ this⟩
 
-example : applyWithCondition ⟨true, .neverEqual, .widen64⟩ [0x81, 0xa1, 0x78, 0x01]
+example : applyWithCondition good [0x81, 0xa1, 0x78, 0x01]
     [⟨.set, [0x79], [0x02]⟩, ⟨.inc, [0x78], [0xa1, 0x61]⟩] none = .error .type := by decide
 
 /-- the condition (if any) holds on the parsed body -/
@@ -336,9 +359,9 @@ theorem atomic_fold (cfg : Cfg) (body : Bytes) (t t1 : Node) (pre : List Op) (op
   exact ⟨h1, h2, ops_atomic _ _ _ _ _ h2⟩
 
 /-- non-vacuity: SET y ← 2 alone changes the body; followed by a failing INC the body is kept -/
-example : bodyAfter ⟨true, .neverEqual, .widen64⟩ [0x81, 0xa1, 0x78, 0x01] [⟨.set, [0x79], [0x02]⟩] none
+example : bodyAfter good [0x81, 0xa1, 0x78, 0x01] [⟨.set, [0x79], [0x02]⟩] none
       = [0x82, 0xa1, 0x78, 0x01, 0xa1, 0x79, 0x02] ∧
-    bodyAfter ⟨true, .neverEqual, .widen64⟩ [0x81, 0xa1, 0x78, 0x01]
+    bodyAfter good [0x81, 0xa1, 0x78, 0x01]
       [⟨.set, [0x79], [0x02]⟩, ⟨.inc, [0x78], [0xa1, 0x61]⟩, ⟨.delete, [0x78], []⟩] none
       = [0x81, 0xa1, 0x78, 0x01] := by decide
 
@@ -368,7 +391,7 @@ theorem inc_keeps_format {cfg : Cfg} {t t' : Node} {op : Op} {segs : List Seg} {
   applyOp_inc_code hk h hres hleaf
 
 /-- SET x ← uint16 256, then INC x by 1: stays uint16 -/
-example : applyWithCondition ⟨true, .neverEqual, .widen64⟩ [0x81, 0xa1, 0x78, 0x01]
+example : applyWithCondition good [0x81, 0xa1, 0x78, 0x01]
     [⟨.set, [0x78], [0xcd, 0x01, 0x00]⟩, ⟨.inc, [0x78], [0x01]⟩] none
     = .ok [0x81, 0xa1, 0x78, 0xcd, 0x01, 0x01] := by decide
 
@@ -424,7 +447,7 @@ structure Common (cfg : Cfg) : Prop where
   merge_keeps : ∀ (pf : List (Bytes × Bytes)) (fs : Fields) (j : Nat) (k : Bytes) (c : Node),
     fs[j]? = some (k, c) → (∀ kv ∈ pf, kv.1 ≠ k) → (mergeInto fs pf)[j]? = some (k, c)
   /-- inside a REMOVE_VAL target: at most one element goes, order is kept -/
-  removeVal_keeps : ∀ (v : Bytes) (xs : List Node), (removeFirst v xs).Sublist xs
+  removeVal_keeps : ∀ (c : Bool) (v : Bytes) (xs : List Node), (rmVal c v xs).Sublist xs
   /-- atomicity: after any successful prefix, the first failing op fails the call and the caller
       keeps the original bytes (the prefix alone would have changed them) -/
   atomic : ∀ body t t1 pre op post cond e, parse body = .ok t → CondMet cfg t cond →
@@ -464,18 +487,16 @@ def SuccessWfPartial (cfg : Cfg) : Prop :=
     wf out = true
 
 /-- "a patch produces exactly the document the documented operation semantics describe":
-    parsing the returned body gives `Spec.refOps` of the parsed input body
-    (REMOVE_VAL with scalar values — see `apply_refines_spec_partial`) -/
+    parsing the returned body gives `Spec.refOps` of the parsed input body — all eight ops -/
 def RefinesSpec (cfg : Cfg) : Prop :=
   ∀ body ops cond out t, parse body = .ok t → (∀ op ∈ ops, op.path.length < 2 ^ 32) →
-    (∀ op ∈ ops, RemoveValScalar op) →
     maxCh t + totalGrowth cfg ops < 2 ^ 32 → applyWithCondition cfg body ops cond = .ok out →
     ∃ d, Spec.refOps t ops = .ok d ∧ parse out = .ok d
 
 /-- the same, restricted to op lists whose spliced values are valid -/
 def RefinesSpecPartial (cfg : Cfg) : Prop :=
   ∀ body ops cond out t, parse body = .ok t → (∀ op ∈ ops, op.path.length < 2 ^ 32) →
-    (∀ op ∈ ops, RemoveValScalar op) → (∀ op ∈ ops, ValueOk op) →
+    (∀ op ∈ ops, RemoveValScalar cfg op) → (∀ op ∈ ops, ValueOk op) →
     maxCh t + totalGrowth (validating cfg) ops < 2 ^ 32 → applyWithCondition cfg body ops cond = .ok out →
     ∃ d, Spec.refOps t ops = .ok d ∧ parse out = .ok d
 
@@ -491,7 +512,7 @@ theorem common (cfg : Cfg) : Common cfg where
   untouched := fun _ _ _ _ _ _ h hres => untouched_target h hres
   untouched_leaf := fun _ _ _ _ _ _ _ hp h hq hl => untouched_leaf_bytes hp h hq hl
   merge_keeps := mergeInto_keeps
-  removeVal_keeps := removeFirst_sublist
+  removeVal_keeps := rmVal_sublist
   atomic := fun body t t1 pre op post cond e hp hc hpre hop => atomic_fold cfg body t t1 pre op post cond e hp hc hpre hop
   cond_unmet := fun body t ops c e hp hc => cond_unmet cfg body t ops c e hp hc
   inc_code := fun _ _ _ _ _ _ _ hk h hres hl => inc_keeps_format hk h hres hl
@@ -512,17 +533,17 @@ theorem applyWithCondition_validating {cfg : Cfg} {body : Bytes} {ops : List Op}
 theorem apply_refines_spec_unvalidated_partial {cfg : Cfg}
     {body : Bytes} {ops : List Op} {cond : Option Condition} {out : Bytes} {t : Node}
     (hparse : parse body = .ok t) (hpaths : ∀ op ∈ ops, op.path.length < 2 ^ 32)
-    (hrv : ∀ op ∈ ops, RemoveValScalar op) (hvals : ∀ op ∈ ops, ValueOk op)
+    (hrv : ∀ op ∈ ops, RemoveValScalar cfg op) (hvals : ∀ op ∈ ops, ValueOk op)
     (hsize : maxCh t + totalGrowth (validating cfg) ops < 2 ^ 32)
     (h : applyWithCondition cfg body ops cond = .ok out) :
     ∃ d, Spec.refOps t ops = .ok d ∧ parse out = .ok d := by
   rw [applyWithCondition_validating hparse hvals] at h
   exact applyWithCondition_refines (cfg := validating cfg) rfl hparse hpaths hrv hsize h
 
-theorem holds_of_good {cfg : Cfg} (hv : cfg.validatesValues = true) (hn : cfg.nan = .neverEqual) :
-    Holds cfg :=
+theorem holds_of_good {cfg : Cfg} (hv : cfg.validatesValues = true) (hn : cfg.nan = .neverEqual)
+    (hc : cfg.rmvalCanon = true) : Holds cfg :=
   ⟨common cfg, fun _ _ _ _ _ hp hpaths hsize h => apply_wf hv hp hpaths hsize h, nan_equal_nothing hn,
-   fun _ _ _ _ _ hp hpaths hrv hsize h => apply_refines_spec_partial hv hp hpaths hrv hsize h⟩
+   fun _ _ _ _ _ hp hpaths hsize h => apply_refines_spec hv hc hp hpaths hsize h⟩
 
 theorem holds_except (cfg : Cfg) : HoldsExcept cfg :=
   ⟨common cfg, fun _ _ _ _ _ hp hpaths hvals hsize h => apply_wf_partial hp hpaths hvals hsize h,
@@ -531,42 +552,71 @@ theorem holds_except (cfg : Cfg) : HoldsExcept cfg :=
 /-! ## 8. witnesses for the unrepaired fact values (each reproduced on the real code) -/
 
 /-- `{"x": 1}`, `SET x ← 0xc1`: success, and the stored body no longer parses -/
-theorem witness_unvalidated (n : NanRule) (fx : FixintRule) :
-    applyWithCondition ⟨false, n, fx⟩ [0x81, 0xa1, 0x78, 0x01] [⟨.set, [0x78], [0xc1]⟩] none
+theorem witness_unvalidated (n : NanRule) (fx : FixintRule) (rc : Bool) :
+    applyWithCondition ⟨false, n, fx, rc⟩ [0x81, 0xa1, 0x78, 0x01] [⟨.set, [0x78], [0xc1]⟩] none
       = .ok [0x81, 0xa1, 0x78, 0xc1] ∧
     wf [0x81, 0xa1, 0x78, 0xc1] = false := by
-  cases n <;> cases fx <;> decide
+  cases n <;> cases fx <;> cases rc <;> decide
 
 /-- the repaired code rejects it -/
 theorem witness_unvalidated_fixed :
-    applyWithCondition ⟨true, .neverEqual, .widen64⟩ [0x81, 0xa1, 0x78, 0x01] [⟨.set, [0x78], [0xc1]⟩] none
+    applyWithCondition good [0x81, 0xa1, 0x78, 0x01] [⟨.set, [0x78], [0xc1]⟩] none
       = .error .msgpack := by decide
 
 def nanLeaf : Bytes := [0xcb, 0x7f, 0xf8, 0, 0, 0, 0, 0, 0]
 
 /-- `{"f": NaN}`, condition `f EQUAL NaN`: met -/
-theorem witness_nan_equal (v : Bool) (fx : FixintRule) :
-    compareLeaf ⟨v, .equal, fx⟩ nanLeaf nanLeaf = .ok 0 ∧
-    applyWithCondition ⟨v, .equal, fx⟩ (0x81 :: 0xa1 :: 0x66 :: nanLeaf) [] (some ⟨[0x66], .eq, nanLeaf⟩)
+theorem witness_nan_equal (v : Bool) (fx : FixintRule) (rc : Bool) :
+    compareLeaf ⟨v, .equal, fx, rc⟩ nanLeaf nanLeaf = .ok 0 ∧
+    applyWithCondition ⟨v, .equal, fx, rc⟩ (0x81 :: 0xa1 :: 0x66 :: nanLeaf) [] (some ⟨[0x66], .eq, nanLeaf⟩)
       = .ok (0x81 :: 0xa1 :: 0x66 :: nanLeaf) := by
-  cases v <;> cases fx <;> decide
+  cases v <;> cases fx <;> cases rc <;> decide
 
 theorem witness_nan_fixed :
-    applyWithCondition ⟨true, .neverEqual, .widen64⟩ (0x81 :: 0xa1 :: 0x66 :: nanLeaf) []
+    applyWithCondition good (0x81 :: 0xa1 :: 0x66 :: nanLeaf) []
       (some ⟨[0x66], .eq, nanLeaf⟩) = .error .type := by decide
 
-theorem not_successWf_of_unvalidated (n : NanRule) (fx : FixintRule) : ¬ SuccessWf ⟨false, n, fx⟩ := by
+theorem not_successWf_of_unvalidated (n : NanRule) (fx : FixintRule) (rc : Bool) :
+    ¬ SuccessWf ⟨false, n, fx, rc⟩ := by
   intro h
-  have hw := witness_unvalidated n fx
+  have hw := witness_unvalidated n fx rc
   have := h [0x81, 0xa1, 0x78, 0x01] [⟨.set, [0x78], [0xc1]⟩] none [0x81, 0xa1, 0x78, 0xc1]
-    (.map [([0x78], .leaf [0x01])]) (by rfl) (by decide) (by cases n <;> cases fx <;> decide) hw.1
+    (.map [([0x78], .leaf [0x01])]) (by rfl) (by decide) (by cases n <;> cases fx <;> cases rc <;> decide) hw.1
   rw [hw.2] at this
   cases this
 
-theorem not_nanEqualNothing_of_equal (v : Bool) (fx : FixintRule) : ¬ NanEqualNothing ⟨v, .equal, fx⟩ := by
+theorem not_nanEqualNothing_of_equal (v : Bool) (fx : FixintRule) (rc : Bool) :
+    ¬ NanEqualNothing ⟨v, .equal, fx, rc⟩ := by
   intro h
   exact h nanLeaf nanLeaf .float .float 0x7ff8000000000000 0x7ff8000000000000 (by decide) (by decide)
-    (Or.inl ⟨rfl, by decide⟩) (witness_nan_equal v fx).1
+    (Or.inl ⟨rfl, by decide⟩) (witness_nan_equal v fx rc).1
+
+/-- `{"t": [[1]]}`, `REMOVE_VAL t ← [1]`: the documented semantics remove the element, the
+    unrepaired code (scalar leaves only) reports success and leaves the body as it was -/
+theorem witness_removeVal_container (v : Bool) (n : NanRule) (fx : FixintRule) :
+    applyWithCondition ⟨v, n, fx, false⟩ [0x81, 0xa1, 0x74, 0x91, 0x91, 0x01]
+      [⟨.removeVal, [0x74], [0x91, 0x01]⟩] none = .ok [0x81, 0xa1, 0x74, 0x91, 0x91, 0x01] ∧
+    Spec.refOps (.map [([0x74], .arr [.arr [.leaf [0x01]]])]) [⟨.removeVal, [0x74], [0x91, 0x01]⟩]
+      = .ok (.map [([0x74], .arr [])]) := by
+  constructor
+  · cases v <;> cases n <;> cases fx <;> decide
+  · rfl
+
+theorem not_refinesSpec_of_scalar (v : Bool) (n : NanRule) (fx : FixintRule) :
+    ¬ RefinesSpec ⟨v, n, fx, false⟩ := by
+  intro h
+  have hw := witness_removeVal_container v n fx
+  obtain ⟨d, hd1, hd2⟩ := h [0x81, 0xa1, 0x74, 0x91, 0x91, 0x01] [⟨.removeVal, [0x74], [0x91, 0x01]⟩] none
+    [0x81, 0xa1, 0x74, 0x91, 0x91, 0x01] (.map [([0x74], .arr [.arr [.leaf [0x01]]])]) (by rfl) (by decide)
+    (by cases v <;> cases n <;> cases fx <;> decide) hw.1
+  rw [hw.2] at hd1
+  injection hd1 with hd1
+  subst hd1
+  have hp : parse [0x81, 0xa1, 0x74, 0x91, 0x91, 0x01] = .ok (.map [([0x74], .arr [.arr [.leaf [0x01]]])]) := by rfl
+  rw [hp] at hd2
+  injection hd2 with hd2
+  injection hd2 with hd2
+  simp at hd2
 
 /-! ## 9. decision over the extracted facts -/
 
@@ -574,25 +624,35 @@ inductive DupRule where
   | first | unknown
   deriving DecidableEq, Repr
 
+/-- which array elements `applyRemoveVal` compares -/
+inductive RmvalRule where
+  | scalarBytes   -- `if item.Kind != KindLeaf { continue }`: leaves only, raw bytes   [bb38e3b]
+  | canonical     -- every element, by its canonical encoding (`elementBytes` / `canonicalValue`)
+  | unknown
+  deriving DecidableEq, Repr
+
 structure Facts where
   validatesValues : Tri
   nanCompare : NanRule
   incFixint : FixintRule
   dupKey : DupRule
+  removeValCompare : RmvalRule
   magic0 : Option Nat
   magic1 : Option Nat
   deriving Repr
 
 def cfgOf (f : Facts) : Cfg :=
-  { validatesValues := f.validatesValues.isYes, nan := f.nanCompare, fixint := f.incFixint }
+  { validatesValues := f.validatesValues.isYes, nan := f.nanCompare, fixint := f.incFixint,
+    rmvalCanon := f.removeValCompare == .canonical }
 
 def hasUnknown (f : Facts) : Bool :=
   f.validatesValues == .unknown || f.nanCompare == .unknown || f.incFixint == .unknown ||
-  f.dupKey == .unknown || f.magic0.isNone || f.magic1.isNone
+  f.dupKey == .unknown || f.removeValCompare == .unknown || f.magic0.isNone || f.magic1.isNone
 
 def findings (f : Facts) : List String :=
   (if f.validatesValues == .no then ["C13-unvalidated-op-value"] else []) ++
-  (if f.nanCompare == .equal then ["C13-nan-compares-equal"] else [])
+  (if f.nanCompare == .equal then ["C13-nan-compares-equal"] else []) ++
+  (if f.removeValCompare == .scalarBytes then ["C13-removeval-skips-containers"] else [])
 
 def classify (f : Facts) : Verdict :=
   if hasUnknown f then .undetermined "a msgpackpatch / swamp_patch.go pattern was not recognised"
@@ -600,20 +660,28 @@ def classify (f : Facts) : Verdict :=
   else .violated (findings f)
 
 theorem classify_sound (f : Facts) : (classify f).Sound (Holds (cfgOf f)) (HoldsExcept (cfgOf f)) := by
-  obtain ⟨vv, nc, fx, dk, m0, m1⟩ := f
+  obtain ⟨vv, nc, fx, dk, rv, m0, m1⟩ := f
   unfold classify
   split
   · trivial
   · rename_i hu
-    cases vv <;> cases nc <;> simp [hasUnknown] at hu <;> simp only [findings, cfgOf, Tri.isYes] <;>
-      simp only [Verdict.Sound]
-    · -- yes, equal
-      exact ⟨fun h => not_nanEqualNothing_of_equal true fx h.2.2.1, holds_except _⟩
-    · -- yes, neverEqual
-      exact holds_of_good rfl rfl
-    · -- no, equal
-      exact ⟨fun h => not_successWf_of_unvalidated .equal fx h.2.1, holds_except _⟩
-    · -- no, neverEqual
-      exact ⟨fun h => not_successWf_of_unvalidated .neverEqual fx h.2.1, holds_except _⟩
+    cases vv <;> cases nc <;> cases rv <;> simp [hasUnknown] at hu <;>
+      simp only [findings, cfgOf, Tri.isYes] <;> simp only [Verdict.Sound]
+    · -- yes, equal, scalar
+      exact ⟨fun h => not_nanEqualNothing_of_equal true fx _ h.2.2.1, holds_except _⟩
+    · -- yes, equal, canonical
+      exact ⟨fun h => not_nanEqualNothing_of_equal true fx _ h.2.2.1, holds_except _⟩
+    · -- yes, neverEqual, scalar
+      exact ⟨fun h => not_refinesSpec_of_scalar true .neverEqual fx h.2.2.2, holds_except _⟩
+    · -- yes, neverEqual, canonical
+      exact holds_of_good rfl rfl rfl
+    · -- no, equal, scalar
+      exact ⟨fun h => not_successWf_of_unvalidated .equal fx _ h.2.1, holds_except _⟩
+    · -- no, equal, canonical
+      exact ⟨fun h => not_successWf_of_unvalidated .equal fx _ h.2.1, holds_except _⟩
+    · -- no, neverEqual, scalar
+      exact ⟨fun h => not_successWf_of_unvalidated .neverEqual fx _ h.2.1, holds_except _⟩
+    · -- no, neverEqual, canonical
+      exact ⟨fun h => not_successWf_of_unvalidated .neverEqual fx _ h.2.1, holds_except _⟩
 
 end Hv.C13
